@@ -85,6 +85,9 @@ Clauses(r) ==
   C11_AbscissaCorrected |->
       \A i \in 1..np : r.passes[i].x_exp \in {1, 99},
   C11_StoredInitUnchanged |-> r.stored_cp_exp \in {0, 99},
+  \* the reported contact point is the optimiser's one divided by k
+  C11_ReportedCpInMeasuredUnits |->
+      \A i \in 1..np : r.passes[i].rep_exp \in {-1, 99},
   \* with k # 1 the plateau search still scans MEASURED depths
   C11_ScanInMeasuredUnits |->
       (r.mode = "edelta" /\ r.success /\ r.k_not_one)
